@@ -158,6 +158,11 @@ func (srv *Server) handleChannel(ctx context.Context, c *ServerChannel) {
 			_ = c.FinishSession(ctx)
 		}
 
+		// Nobody serves this session anymore, so its connection is released even if the
+		// session could not be finished (for instance, when it was failed but the
+		// envelope could not be sent, or when the peer has vanished).
+		_ = c.Close()
+
 		finished := srv.config.Finished
 		if finished != nil {
 			finished(c.sessionID)
